@@ -131,6 +131,15 @@ int main(int argc, char *argv[])
 		pattern(idx, n, nd_rnd(6), nk);
 		do_sort(idx, n, nd_rnd(4) != 0);
 	}
+	/* long arrays: seeded random lengths up to 5000 (block sizes and buffer sizes of the merge change with the length) */
+	size_t nl = thorough ? 700 : 60;
+	for (size_t k = 0; k < nl; k++) {
+		size_t n = 1200 + nd_rnd(3800);
+		size_t nk = nd_rnd(3) ? 1 + nd_rnd(n) : 2 + nd_rnd(60);
+		mkkeys(nk, nd_rnd(2));
+		pattern(idx, n, nd_rnd(2) ? 0 : nd_rnd(6), nk);
+		do_sort(idx, n, 1);
+	}
 	fflush(o);
 	return 0;
 }
